@@ -180,6 +180,28 @@ def check_case(case, ctx):
     if st4 == "ok" and ok:
         compare_table(ctx, {**case, "scheme": sch_k, "after_scheme": sch}, Mk, ref.cost_table(ds, sch_k, elems), ids,
                       gen.is_dyadic(sch_k), f"second call on the same positions under {k} x the scheme")
+    # the optional `weights` argument, through the three public routes to the table: with whole-number weights the table is,
+    # by definition ("summed over the input rankings"), that of the dataset in which ranking i occurs weights[i] times
+    if ok and gen.digest(ds)[2] in "01234":
+        import random
+        rw = random.Random(gen.digest(ds))
+        w = [rw.choice([1, 1, 2, 3]) for _ in ds]
+        if len(set(w)) == 1:
+            w[rw.randrange(len(w))] += 1
+        repeated = [r for r, k_ in zip(ds, w) for _ in range(k_)]
+        table_w = ref.cost_table(repeated, sch, elems)
+        warr = np.array(w, dtype=float)
+        ctx.count("weighted_tables")
+        for route, fn in (("pairwise_cost_matrix", lambda: PBA.pairwise_cost_matrix(dataset.get_positions(), scheme, warr)),
+                          ("graph_of_elements", lambda: PBA.graph_of_elements(dataset.get_positions(), scheme, warr)[1]),
+                          ("graph_of_elements_with_robust_arcs",
+                           lambda: PBA.graph_of_elements_with_robust_arcs(dataset.get_bucket_ids(), scheme, warr)[1])):
+            stw, Mw = call(fn)
+            if stw == "exc":
+                ctx.violation("C02/table-raises", f"{route} with weights {w} raised " + exc_desc(Mw), {**case, "weights": w})
+            else:
+                compare_table(ctx, {**case, "weights": w}, Mw, table_w, ids, exact, f"{route} with whole-number weights {w} "
+                              "(reference: each ranking repeated that many times)")
     # mirror consistency on the library's own table
     n = len(elems)
     for i in range(n):
@@ -296,6 +318,9 @@ def reach(counters, tier, info):
         v = counters.get(f"status:{s}", 0)
         out.append({"name": f"pair status {s} seen (id order x<y) with a non-zero penalty", "observed": v,
                     "required": 50, "ok": v >= 50})
+    vw = counters.get("weighted_tables", 0)
+    out.append({"name": "tables asked with whole-number weights through the three public routes", "observed": vw,
+                "required": 100 if tier == "quick" else 4000, "ok": vw >= (100 if tier == "quick" else 4000)})
     v = counters.get("contract:pairwise_cost_matrix", 0)
     out.append({"name": "recording postcondition evaluations", "observed": v, "required": 500, "ok": v >= 500})
     v = counters.get("internal_tables_judged", 0)
